@@ -11,7 +11,7 @@ import traceback
 
 VERIF = os.path.dirname(os.path.dirname(os.path.abspath(__file__)))
 REPO = os.environ.get('VERIF_REPO', '/repo')
-EVIDENCE_DIR = os.path.join(VERIF, 'evidence')
+EVIDENCE_DIR = os.environ.get('VERIF_EVIDENCE_DIR') or os.path.join(VERIF, 'evidence')     # mutcheck writes elsewhere
 REPLAY_DIR = os.path.join(VERIF, 'replays')
 FINDINGS_FILE = os.path.join(VERIF, 'known_findings.json')
 
